@@ -25,24 +25,51 @@ META = {
     'assumptions': [
         'double fields are exact reals (no rounding claim)',
         'well-formed input: 0 <= start <= end <= total_time',
-        'H1-H4 assume a valid split vector (sorted, non-final < total_time); '
+        'H1-H4 assume a valid split vector (sorted, non-final < total_time; '
+        'first split >= 0 except in the neg jobs, where it is < 0); '
         'H1e decides the ValueError clause for invalid vectors',
+        'H5 recorder jobs replace _extract_subsequences by a recorder and '
+        'check the split vector, the sequence and the preserve argument it '
+        'receives; H5 real jobs run the real extractor and check the returned '
+        'pieces (a ValueError is accepted only when a chosen non-final time '
+        'is >= total_time)',
         'symproto models upb protobuf (validated per sampled path on the real '
         'stack)',
     ],
     'bounds': {
-        'quick': 'H1 N<=3 notes x S<=3 splits; H2 K<=3 state events x S=3; '
-                 'H3 P<=2 pedal events; H4 K<=2 annotations; H5 N<=2, <=2 '
-                 'split candidates',
-        'thorough': 'H1 N<=3 x S<=4; H2 K<=3 x S<=4; H3 P<=3; H4 K<=3; H5 N<=3, '
-                    '<=3 candidates',
+        'quick': 'H1 N<=3 notes x S<=3 splits (instrument 0..15, any program, '
+                 'drum flag; one job with pitch_name/numerator/denominator/'
+                 'part/voice, one with a negative first split); H2 K<=3 state '
+                 'events of one kind x S=3, K=2 through extract_subsequence, '
+                 'H2-mixed one event of each of <=3 kinds / chord+beat+chord; '
+                 'H3 P<=2 pedal events, controller number any of 0..127, '
+                 'default and explicit preserve lists ([1,64], [], [66,7], '
+                 '[64]), instruments {0,1} / {1,15}, P=2 x S=3 with [64]; '
+                 'H4 K<=2 annotations; H5 N<=2 notes (drum flag, instrument '
+                 '0..15; also N=0), <=2 list times / <=4 hops (real or int '
+                 'hop) / 1+1 time changes, skip False/True/omitted, gap '
+                 'symbolic or omitted; real-extractor jobs N<=2; H6 N=2 '
+                 '(a >= 0 and a < 0), trim on a fully populated sequence '
+                 'with any a, b',
+        'thorough': 'H1 N<=3 x S<=4; H2 K<=3 x S<=4, 4 kinds mixed; H3 P<=3; '
+                    'H4 K<=3; H5 N<=3, <=3 candidates, real extractor N<=3',
     },
-    'outside': ['more notes/events/splits than the bounds', 'float rounding'],
+    'outside': ['more notes/events/splits than the bounds', 'float rounding',
+                'quantized input', 'split times given as tuple / numpy array',
+                'pass-through of metadata fields by the extractor (only id '
+                'and ticks_per_quarter are compared)',
+                'multiplicity of redundant state events inside a piece'],
 }
 
 
 def _splits(c, S, tt):
-  sp = [c.real('sp%d' % i, 0) for i in range(S)]
+  if c.params.get('neg'):
+    # the first split time lies before time 0 (nothing in the statement or
+    # the docstrings restricts split times to be non-negative)
+    sp = [c.real('sp0')] + [c.real('sp%d' % i, 0) for i in range(1, S)]
+    c.assume(sp[0] < 0)
+  else:
+    sp = [c.real('sp%d' % i, 0) for i in range(S)]
   for a, b in zip(sp, sp[1:]):
     c.assume(a <= b)
   for a in sp[:-1]:
@@ -57,13 +84,26 @@ def h1_partition(c):
   ns = pb.NoteSequence()
   ns.ticks_per_quarter = c.int('tpq', 1, 960)
   ns.id = 'some-id'
-  notes = K.add_notes(c, ns, N, instruments=(0, 1), drums=True, programs=(0, 5))
+  notes = K.add_notes(c, ns, N, instruments=(0, 15), drums=True,
+                      programs=(0, 127))
+  fields = ('pitch', 'velocity', 'instrument', 'program', 'is_drum')
+  if c.params.get('attrs'):
+    # "every other attribute intact": the score-derived note attributes too
+    extra = (('pitch_name', 0, 34), ('numerator', 0, 64), ('denominator', 0, 64),
+             ('part', 0, 9), ('voice', 0, 9))
+    for i, n in enumerate(notes):
+      for f, lo_, hi_ in extra:
+        n[f] = c.int('n%d_%s' % (i, f), lo_, hi_)
+        setattr(ns.notes[i], f, n[f])
+    fields += tuple(f for f, _, _ in extra)
   tt = K.well_formed_total(c, ns, notes)
   sp = _splits(c, S, tt)
   before = c.snapshot(ns)
-  subs = sl._extract_subsequences(ns, list(sp))
+  spl = list(sp)
+  subs = sl._extract_subsequences(ns, spl)
+  c.check(c.And([len(spl) == S] + [c.eq(x, y) for x, y in zip(spl, sp)]),
+          'caller\'s split list unchanged')
   c.check(len(subs) == S - 1, 'number of pieces')
-  fields = ('pitch', 'velocity', 'instrument', 'program', 'is_drum')
   for k in range(S - 1):
     lo, hi = sp[k], sp[k + 1]
     exp = []
@@ -122,36 +162,36 @@ _KINDS = ('tempo', 'timesig', 'key', 'chord')
 _CHORDS = ['C', 'G7', 'Am', 'N.C.']
 
 
-def _add_state_events(c, ns, kind, K_):
+def _add_state_events(c, ns, kind, K_, ev='ev', first_chord=0):
   """Adds K_ events of `kind`; returns [(time, payload)] in storage order."""
   pb = c.pb
   evs = []
   for i in range(K_):
-    t = c.real('ev%d_t' % i, 0)
+    t = c.real('%s%d_t' % (ev, i), 0)
     if kind == 'tempo':
-      q = c.real('ev%d_q' % i, 10, 480)
+      q = c.real('%s%d_q' % (ev, i), 10, 480)
       ns.tempos.add(time=t, qpm=q)
       evs.append((t, (q,)))
     elif kind == 'timesig':
-      nu = c.int('ev%d_n' % i, 1, 12)
-      de = c.int('ev%d_d' % i, 1, 16)
+      nu = c.int('%s%d_n' % (ev, i), 1, 12)
+      de = c.int('%s%d_d' % (ev, i), 1, 16)
       ns.time_signatures.add(time=t, numerator=nu, denominator=de)
       evs.append((t, (nu, de)))
     elif kind == 'key':
-      k = c.int('ev%d_k' % i, 0, 11)
-      m = c.int('ev%d_m' % i, 0, 1)
+      k = c.int('%s%d_k' % (ev, i), 0, 11)
+      m = c.int('%s%d_m' % (ev, i), 0, 1)
       ns.key_signatures.add(time=t, key=k, mode=m)
       evs.append((t, (k, m)))
     else:
       # chord texts are concrete and distinct per index (text is never
       # computed on); the step field is carried along symbolically
-      q = c.int('ev%d_qs' % i, 0, 1000)
+      q = c.int('%s%d_qs' % (ev, i), 0, 1000)
       ns.text_annotations.add(
           time=t,
-          text=_CHORDS[i],
+          text=_CHORDS[first_chord + i],
           quantized_step=q,
           annotation_type=pb.NoteSequence.TextAnnotation.CHORD_SYMBOL)
-      evs.append((t, (i, q)))
+      evs.append((t, (first_chord + i, q)))
   return evs
 
 
@@ -169,20 +209,18 @@ def _piece_events(c, piece, kind):
   return out
 
 
-def h2_state(c):
-  """State in effect at a symbolic instant of each piece = original's."""
-  kind, K_, S = c.params['kind'], c.params['K'], c.params['S']
-  pb, sl = c.pb, c.mod('sequences_lib')
-  ns = pb.NoteSequence()
-  notes = K.add_notes(c, ns, 1)
-  tt = K.well_formed_total(c, ns, notes)
-  evs = _add_state_events(c, ns, kind, K_)
-  sp = _splits(c, S, tt)
-  tau = c.real('tau', 0)
-  before = c.snapshot(ns)
-  subs = sl._extract_subsequences(ns, list(sp))
+def _extract(c, sl, ns, sp, **kw):
+  """The pieces of `ns` cut at `sp`: through the private worker, or (two split
+  times, params via='public') through the public extract_subsequence."""
+  if c.params.get('via') == 'public':
+    assert len(sp) == 2
+    return [sl.extract_subsequence(ns, sp[0], sp[1], **kw)]
+  return sl._extract_subsequences(ns, list(sp), **kw)
+
+
+def _check_state(c, subs, sp, evs, kind, tau):
   ident = lambda p: p
-  for k in range(S - 1):
+  for k in range(len(sp) - 1):
     lo, hi = sp[k], sp[k + 1]
     pe = _piece_events(c, subs[k], kind)
     for tm, _ in pe:
@@ -197,6 +235,22 @@ def h2_state(c):
     else:
       same = c.Not(ex_o)
     c.check(c.Implies(inside, same), 'state in effect at tau (%s)' % kind)
+
+
+def h2_state(c):
+  """State in effect at a symbolic instant of each piece = original's."""
+  kind, K_, S = c.params['kind'], c.params['K'], c.params['S']
+  pb, sl = c.pb, c.mod('sequences_lib')
+  ns = pb.NoteSequence()
+  notes = K.add_notes(c, ns, 1)
+  tt = K.well_formed_total(c, ns, notes)
+  evs = _add_state_events(c, ns, kind, K_)
+  sp = _splits(c, S, tt)
+  tau = c.real('tau', 0)
+  before = c.snapshot(ns)
+  subs = _extract(c, sl, ns, sp)
+  c.check(len(subs) == S - 1, 'number of pieces')
+  _check_state(c, subs, sp, evs, kind, tau)
   c.check(c.msg_eq(ns, before), 'input unchanged')
   if K_ >= 1 and S >= 3:
     c.cover('event exactly on an inner split', c.eq(evs[0][0], sp[1]))
@@ -205,12 +259,67 @@ def h2_state(c):
     c.cover('two events at the same time', c.eq(evs[0][0], evs[1][0]))
 
 
-_CCNUM = [64, 66, 67, 1]
+def h2_mixed(c):
+  """Several kinds of state event (and a beat) in one sequence: every kind is
+  carried independently of the others."""
+  kinds, S = c.params['kinds'], c.params['S']
+  pb, sl = c.pb, c.mod('sequences_lib')
+  TA = pb.NoteSequence.TextAnnotation
+  ns = pb.NoteSequence()
+  notes = K.add_notes(c, ns, 1)
+  tt = K.well_formed_total(c, ns, notes)
+  evs = {}
+  for kind in kinds:
+    evs[kind] = _add_state_events(c, ns, kind, 1, ev=kind[:3])
+  bt = None
+  if c.params.get('beat'):
+    # stored between / after the chords in the shared text_annotations list
+    bt = c.real('beat_t', 0)
+    ns.text_annotations.add(time=bt, annotation_type=TA.BEAT, text='b')
+    if 'chord' in kinds:
+      evs['chord'] += _add_state_events(c, ns, 'chord', 1, ev='ch2_',
+                                        first_chord=1)
+  sp = _splits(c, S, tt)
+  tau = c.real('tau', 0)
+  before = c.snapshot(ns)
+  subs = _extract(c, sl, ns, sp)
+  c.check(len(subs) == S - 1, 'number of pieces')
+  for kind in kinds:
+    _check_state(c, subs, sp, evs[kind], kind, tau)
+  for k in range(S - 1):
+    lo, hi = sp[k], sp[k + 1]
+    if bt is not None:
+      got = [(e.time,) for e in subs[k].text_annotations
+             if e.annotation_type == TA.BEAT]
+      c.check(K.multiset_eq(c, got, [(c.And(bt >= lo, bt < hi), (bt - lo,))]),
+              'beats land in the piece containing them')
+    for kind in _KINDS:
+      if kind not in kinds:
+        c.check(len(_piece_events(c, subs[k], kind)) == 0,
+                'no state event invented (%s)' % kind)
+  c.check(c.msg_eq(ns, before), 'input unchanged')
+  c.cover('every kind has its event before the first split',
+          c.And([evs[kind][0][0] < sp[0] for kind in kinds]))
+  c.cover('events of two kinds at the same instant',
+          c.eq(evs[kinds[0]][0][0], evs[kinds[-1]][0][0]))
+
+
+_PEDALS = (64, 66, 67)
 
 
 def h3_pedals(c):
-  """Per-(instrument, controller) pedal state at a symbolic instant."""
+  """Per-(instrument, controller) pedal state at a symbolic instant.
+
+  params: P events, S split times; INS the two instruments used (default
+  (0, 1)); preserve = list passed as preserve_control_numbers (absent: the
+  argument is omitted and the documented default 64/66/67 applies); via.
+  The controller number is any of 0..127 (the code's membership test closes
+  the domain: one branch per preserved number plus "any other").
+  """
   P, S = c.params['P'], c.params['S']
+  INS = list(c.params.get('INS', (0, 1)))
+  preserve = c.params.get('preserve')
+  kept = _PEDALS if preserve is None else tuple(preserve)
   pb, sl = c.pb, c.mod('sequences_lib')
   ns = pb.NoteSequence()
   notes = K.add_notes(c, ns, 1)
@@ -218,8 +327,8 @@ def h3_pedals(c):
   ccs = []
   for i in range(P):
     t = c.real('cc%d_t' % i, 0)
-    num = c.choice('cc%d_num' % i, _CCNUM)
-    ins = c.choice('cc%d_ins' % i, [0, 1])
+    num = c.int('cc%d_num' % i, 0, 127)
+    ins = c.choice('cc%d_ins' % i, INS)
     val = c.int('cc%d_val' % i, 0, 127)
     ns.control_changes.add(time=t, control_number=num, control_value=val,
                            instrument=ins)
@@ -227,20 +336,32 @@ def h3_pedals(c):
   sp = _splits(c, S, tt)
   tau = c.real('tau', 0)
   before = c.snapshot(ns)
-  subs = sl._extract_subsequences(ns, list(sp))
+  if preserve is None:
+    subs = _extract(c, sl, ns, sp)
+  else:
+    plist = list(preserve)
+    subs = _extract(c, sl, ns, sp, preserve_control_numbers=plist)
+    c.check(plist == list(preserve), 'caller\'s preserve list unchanged')
+  c.check(len(subs) == S - 1, 'number of pieces')
   for k in range(S - 1):
     lo, hi = sp[k], sp[k + 1]
     inside = tau < hi - lo
     pcs = list(subs[k].control_changes)
     for e in pcs:
-      c.check(e.control_number != 1, 'non-pedal controller dropped')
+      if preserve is None:
+        c.check(e.control_number != 1, 'non-pedal controller dropped')
+      c.check(c.Or([c.eq(e.control_number, n_) for n_ in kept] or [False]),
+              'controller outside the preserved set dropped')
+      c.check(c.Or([c.eq(e.instrument, i_) for i_ in INS]),
+              'pedal event instrument is one of the original\'s')
       c.check(c.And(e.time >= 0, c.Or(e.time < hi - lo, e.time == 0)),
               'pedal event time inside the piece')
-    for num in (64, 66, 67):
-      for ins in (0, 1):
-        orig = [(t, (v,)) for (t, n_, i_, v) in ccs if n_ == num and i_ == ins]
+    for num in kept:
+      for ins in INS:
+        orig = [(t, (v,)) for (t, n_, i_, v) in ccs
+                if i_ == ins and bool(c.eq(n_, num))]
         got = [(e.time, (e.control_value,)) for e in pcs
-               if e.control_number == num and e.instrument == ins]
+               if e.instrument == ins and bool(c.eq(e.control_number, num))]
         ex_o, v_o = K.in_effect(c, orig, tau + lo, lambda p: p)
         ex_p, v_p = K.in_effect(c, got, tau, lambda p: p)
         if got and orig:
@@ -253,7 +374,15 @@ def h3_pedals(c):
           same = True
         c.check(c.Implies(inside, same), 'pedal state in effect at tau')
   c.check(c.msg_eq(ns, before), 'input unchanged')
-  c.cover('pedal event exactly on an inner split', c.eq(ccs[0][0], sp[1]))
+  if S >= 3:
+    c.cover('pedal event exactly on an inner split', c.eq(ccs[0][0], sp[1]))
+  if kept:
+    c.cover('a preserved controller', c.eq(ccs[0][1], kept[-1]))
+  c.cover('a controller outside the preserved set',
+          c.And([ccs[0][1] != n_ for n_ in kept] or [True]))
+  if P >= 2:
+    c.cover('same controller on two instruments',
+            c.And(c.eq(ccs[0][1], ccs[1][1]), ccs[0][2] != ccs[1][2]))
 
 
 def h4_stateless(c):
@@ -295,17 +424,35 @@ def h4_stateless(c):
 
 
 class _Recorder(object):
+  """Stands in for _extract_subsequences in the split-point harnesses (the
+  extraction itself is H1-H4's subject; `real` jobs run the real one)."""
 
-  def __init__(self):
+  def __init__(self, c):
+    self.c = c
     self.calls = []
+    self.seqs = []
+    self.preserve = []
 
   def __call__(self, sequence, split_times, preserve_control_numbers=None):
     self.calls.append(list(split_times))
+    self.seqs.append(self.c.snapshot(sequence))
+    self.preserve.append(preserve_control_numbers)
     return ['PIECES']
 
 
-def _with_recorder(sl, fn, *a, **k):
-  rec = _Recorder()
+class _Raised(object):
+
+  def __init__(self, err):
+    self.err = err
+
+
+def _run_split(c, sl, fn, *a, **k):
+  """Runs a split_* function: against the recorder, or (params real=True) with
+  the real extractor.  Returns (recorder or None, result)."""
+  if c.params.get('real'):
+    res, err = c.raises(fn, *a, **k)
+    return None, (_Raised(err) if err is not None else res)
+  rec = _Recorder(c)
   orig = sl._extract_subsequences
   sl._extract_subsequences = rec
   try:
@@ -315,28 +462,103 @@ def _with_recorder(sl, fn, *a, **k):
   return rec, out
 
 
-def _check_split_vector(c, rec, out, exp, label):
+def _check_split_vector(c, rec, out, exp, label, before=None):
   if len(exp) > 1:
     c.check(len(rec.calls) == 1 and out == ['PIECES'], label + ': extraction called once')
     got = rec.calls[0]
     c.check(len(got) == len(exp), label + ': number of split points')
     c.check(c.And([c.eq(g, e) for g, e in zip(got, exp)]),
             label + ': split points')
+    # the decomposition (H1-H4 prove the extractor) needs the extractor to
+    # see the caller's sequence and the default 64/66/67 pedal set
+    if before is not None:
+      c.check(c.msg_eq(rec.seqs[0], before),
+              label + ': extraction gets the caller\'s sequence')
+    pr = rec.preserve[0]
+    c.check(pr is None or sorted(pr) == [64, 66, 67],
+            label + ': extraction keeps the default pedal controllers')
   else:
     c.check(len(rec.calls) == 0 and out == [], label + ': no pieces')
+
+
+def _check_pieces(c, out, exp, notes, tt, label):
+  """End to end: the list a split_* function returns is the partition of the
+  notes at the expected split vector `exp` (statement: note starting in
+  [t_i, t_i+1) appears once, in piece i, shifted, end clipped)."""
+  n_exp = len(exp) - 1 if len(exp) > 1 else 0
+  if isinstance(out, _Raised):
+    # FINDING-CANDIDATE (reported, not claimed either way): with a LIST of
+    # times split_note_sequence lets the extractor's documented ValueError
+    # ("a subsequence would start past the end") escape when a chosen time
+    # that is not the last one is >= total_time, e.g. total_time = 0 with
+    # times [1/16] (split vector [0, 1/16]), or total_time = 4 with [5, 6].
+    # Pinned here: nothing else is ever raised, and never for another reason.
+    c.check(isinstance(out.err, ValueError), label + ': only ValueError')
+    c.check(c.Or([t >= tt for t in exp[:-1]] + [len(exp) < 2]),
+            label + ': raised only when a piece would start at/after the end')
+    c.cover(label + ': ValueError for a time at/after total_time')
+    return
+  c.check(isinstance(out, list) and len(out) == n_exp,
+          label + ': number of pieces returned')
+  if len(out) != n_exp:
+    return
+  for k in range(n_exp):
+    lo, hi = exp[k], exp[k + 1]
+    want = []
+    for n in notes:
+      cond = c.And(n['start_time'] >= lo, n['start_time'] < hi)
+      want.append((cond, (n['start_time'] - lo, c.Min(n['end_time'], hi) - lo,
+                          n['pitch'], n['velocity'], n['instrument'],
+                          n['is_drum'])))
+    got = [(m.start_time, m.end_time, m.pitch, m.velocity, m.instrument,
+            m.is_drum) for m in out[k].notes]
+    c.check(K.multiset_eq(c, got, want), label + ': piece notes')
+    ends = [c.If(cd, key[1], 0) for cd, key in want]
+    c.check(c.eq(out[k].total_time, c.Max([0] + ends)),
+            label + ': piece total_time')
+    c.check(c.eq(out[k].subsequence_info.start_time_offset, lo),
+            label + ': piece start_time_offset')
+    c.check(c.eq(out[k].subsequence_info.end_time_offset,
+                 tt - lo - out[k].total_time),
+            label + ': piece end_time_offset')
+
+
+def _check_split(c, rec, out, exp, label, before, notes, tt):
+  if rec is None:
+    _check_pieces(c, out, exp, notes, tt, label)
+  else:
+    _check_split_vector(c, rec, out, exp, label, before)
+
+
+def _split_notes(c, ns, N):
+  # drum notes and notes of any instrument sound like any other note when a
+  # split is tested for lying inside a note / silence is measured
+  return K.add_notes(c, ns, N, instruments=(0, 15), drums=True)
+
+
+def _skip_args(c):
+  """params skip: False / True are passed explicitly; 'default' omits the
+  argument (documented default: False)."""
+  skip = c.params['skip']
+  if skip == 'default':
+    return (), False
+  return (skip,), skip
 
 
 def h5_list(c):
   """split_note_sequence with a list of times."""
   N, M = c.params['N'], c.params['M']
-  skip = c.params['skip']
+  sargs, skip = _skip_args(c)
   pb, sl = c.pb, c.mod('sequences_lib')
   ns = pb.NoteSequence()
-  notes = K.add_notes(c, ns, N)
+  notes = _split_notes(c, ns, N)
   tt = K.well_formed_total(c, ns, notes)
   times = [c.real('t%d' % i, 0) for i in range(M)]
   before = c.snapshot(ns)
-  rec, out = _with_recorder(sl, sl.split_note_sequence, ns, list(times), skip)
+  lst = list(times)
+  rec, out = _run_split(c, sl, sl.split_note_sequence, ns, lst, *sargs)
+  c.check(c.And([len(lst) == M] + [c.eq(x, y) for x, y in zip(lst, times)]),
+          'caller\'s list of times unchanged')
   # oracle (declarative per candidate; may fork, all forks are decided by the
   # path already)
   cand = sorted(times)
@@ -348,7 +570,7 @@ def h5_list(c):
       exp.append(t)
   if tt > exp[-1]:
     exp.append(tt)
-  _check_split_vector(c, rec, out, exp, 'list')
+  _check_split(c, rec, out, exp, 'list', before, notes, tt)
   c.check(c.msg_eq(ns, before), 'input unchanged')
   if N and M:
     c.cover('candidate strictly inside a note',
@@ -361,15 +583,19 @@ def h5_list(c):
 def h5_hop(c):
   """split_note_sequence with a scalar hop: exactly the hop multiples."""
   N = c.params['N']
-  skip = c.params['skip']
+  sargs, skip = _skip_args(c)
   pb, sl = c.pb, c.mod('sequences_lib')
   ns = pb.NoteSequence()
-  notes = K.add_notes(c, ns, N)
+  notes = _split_notes(c, ns, N)
   tt = K.well_formed_total(c, ns, notes)
-  hop = c.real('hop')
+  if c.params.get('int_hop'):
+    hop = c.int('hop', 1, 4)  # a whole number of seconds given as an int
+  else:
+    hop = c.real('hop')
   c.assume(hop > 0)
   c.assume(tt <= c.params['max_hops'] * hop)
-  rec, out = _with_recorder(sl, sl.split_note_sequence, ns, hop, skip)
+  before = c.snapshot(ns)
+  rec, out = _run_split(c, sl, sl.split_note_sequence, ns, hop, *sargs)
   exp = [0.0]
   k = 1
   while k * hop < tt:
@@ -381,17 +607,19 @@ def h5_hop(c):
     k += 1
   if tt > exp[-1]:
     exp.append(tt)
-  _check_split_vector(c, rec, out, exp, 'hop')
+  _check_split(c, rec, out, exp, 'hop', before, notes, tt)
+  c.check(c.msg_eq(ns, before), 'input unchanged')
   c.cover('total_time an exact multiple of the hop', c.eq(tt, 2 * hop))
 
 
 def h5_time_changes(c):
   """split_note_sequence_on_time_changes: exactly the genuine changes."""
-  N, skip = c.params['N'], c.params['skip']
+  N = c.params['N']
+  sargs, skip = _skip_args(c)
   nts, ntp = c.params['TS'], c.params['TP']
   pb, sl = c.pb, c.mod('sequences_lib')
   ns = pb.NoteSequence()
-  notes = K.add_notes(c, ns, N)
+  notes = _split_notes(c, ns, N)
   tt = K.well_formed_total(c, ns, notes)
   changes = []  # (time, kind, value) storage order: time signatures then tempos
   for i in range(nts):
@@ -406,7 +634,8 @@ def h5_time_changes(c):
     ns.tempos.add(time=t, qpm=q)
     changes.append((t, 'tp', (q,)))
   before = c.snapshot(ns)
-  rec, out = _with_recorder(sl, sl.split_note_sequence_on_time_changes, ns, skip)
+  rec, out = _run_split(c, sl, sl.split_note_sequence_on_time_changes, ns,
+                        *sargs)
   # oracle: walk the changes in stable time order
   order = sorted(range(len(changes)), key=lambda i: changes[i][0])
   cur = {'ts': (4, 4), 'tp': (120.0,)}
@@ -424,7 +653,7 @@ def h5_time_changes(c):
     cur[kind] = val
   if tt > exp[-1]:
     exp.append(tt)
-  _check_split_vector(c, rec, out, exp, 'time changes')
+  _check_split(c, rec, out, exp, 'time changes', before, notes, tt)
   c.check(c.msg_eq(ns, before), 'input unchanged')
   if changes:
     c.cover('a repeated (non-genuine) change is skipped',
@@ -437,11 +666,16 @@ def h5_silence(c):
   N = c.params['N']
   pb, sl = c.pb, c.mod('sequences_lib')
   ns = pb.NoteSequence()
-  notes = K.add_notes(c, ns, N)
+  notes = _split_notes(c, ns, N)
   tt = K.well_formed_total(c, ns, notes)
-  gap = c.real('gap', 0)
   before = c.snapshot(ns)
-  rec, out = _with_recorder(sl, sl.split_note_sequence_on_silence, ns, gap)
+  if c.params.get('gap') == 'default':
+    # gap_seconds omitted: the documented default is 3.0 seconds
+    gap = 3.0
+    rec, out = _run_split(c, sl, sl.split_note_sequence_on_silence, ns)
+  else:
+    gap = c.real('gap', 0)
+    rec, out = _run_split(c, sl, sl.split_note_sequence_on_silence, ns, gap)
   # declarative: onset s_i is a split point iff s_i > gap + max(0, ends of
   # notes starting strictly earlier)
   pts = []
@@ -458,7 +692,7 @@ def h5_silence(c):
       exp.append(t)
   if tt > exp[-1]:
     exp.append(tt)
-  _check_split_vector(c, rec, out, exp, 'silence')
+  _check_split(c, rec, out, exp, 'silence', before, notes, tt)
   c.check(c.msg_eq(ns, before), 'input unchanged')
   if N >= 2:
     c.cover('gap exactly equal to gap_seconds (no split)',
@@ -470,9 +704,14 @@ def h6_trim_extract(c):
   N = c.params['N']
   pb, sl = c.pb, c.mod('sequences_lib')
   ns = pb.NoteSequence()
-  notes = K.add_notes(c, ns, N, instruments=(0, 1))
+  notes = K.add_notes(c, ns, N, instruments=(0, 15), drums=True,
+                      programs=(0, 127))
   tt = K.well_formed_total(c, ns, notes)
-  a = c.real('a', 0)
+  if c.params.get('neg'):
+    a = c.real('a')  # a range starting before time 0
+    c.assume(a < 0)
+  else:
+    a = c.real('a', 0)
   b = c.real('b')
   c.assume(a <= b)
   before = c.snapshot(ns)
@@ -483,6 +722,11 @@ def h6_trim_extract(c):
   got = [(m.start_time, m.end_time, m.pitch, m.velocity, m.instrument)
          for m in tr.notes]
   c.check(K.multiset_eq(c, got, exp), 'trim keeps notes starting in [a,b)')
+  more = lambda cd, k, n: (cd, k + (n['program'], n['is_drum']))
+  expf = [more(cd, k, n) for (cd, k), n in zip(exp, notes)]
+  gotf = [(m.start_time, m.end_time, m.pitch, m.velocity, m.instrument,
+           m.program, m.is_drum) for m in tr.notes]
+  c.check(K.multiset_eq(c, gotf, expf), 'trim keeps program and is_drum')
   c.check(c.eq(tr.total_time, c.Min(tt, b)), 'trim total_time')
   c.assume(a < tt)
   ex = sl.extract_subsequence(ns, a, b)
@@ -490,13 +734,57 @@ def h6_trim_extract(c):
   got2 = [(m.start_time, m.end_time, m.pitch, m.velocity, m.instrument)
           for m in ex.notes]
   c.check(K.multiset_eq(c, got2, exp2), 'extract = trim shifted by -a')
+  exp2f = [(cd, (k[0] - a, k[1] - a) + k[2:]) for cd, k in expf]
+  got2f = [(m.start_time, m.end_time, m.pitch, m.velocity, m.instrument,
+            m.program, m.is_drum) for m in ex.notes]
+  c.check(K.multiset_eq(c, got2f, exp2f), 'extract keeps program and is_drum')
+  # the piece's total_time is its last note end; subsequence_info records the
+  # offsets (statement), seen through the public wrapper
+  last = c.Max([0] + [c.If(cd, k[1], 0) for cd, k in exp2])
+  c.check(c.eq(ex.total_time, last), 'extract total_time')
+  c.check(c.eq(ex.subsequence_info.start_time_offset, a),
+          'extract start_time_offset')
+  c.check(c.eq(ex.subsequence_info.end_time_offset, tt - a - last),
+          'extract end_time_offset')
   c.check(c.msg_eq(ns, before), 'input unchanged')
+
+
+def h6_trim_full(c):
+  """trim_note_sequence returns "a copy of `sequence` with all notes trimmed":
+  everything but the notes (and total_time) is the input's, at unshifted
+  times; any a, b (also b < a: no note lies in an empty range)."""
+  N = c.params['N']
+  pb, sl = c.pb, c.mod('sequences_lib')
+  ns = pb.NoteSequence()
+  d = K.populate_full(c, ns, n_notes=N, groups=True)
+  notes = d['notes']
+  a = c.real('a')
+  b = c.real('b')
+  before = c.snapshot(ns)
+  tr = sl.trim_note_sequence(ns, a, b)
+  flds = ('pitch', 'velocity', 'instrument', 'program', 'is_drum')
+  exp = [(c.And(n['start_time'] >= a, n['start_time'] < b),
+          (n['start_time'], c.Min(n['end_time'], b)) + tuple(n[f] for f in flds))
+         for n in notes]
+  got = [(m.start_time, m.end_time) + tuple(getattr(m, f) for f in flds)
+         for m in tr.notes]
+  c.check(K.multiset_eq(c, got, exp), 'trim keeps notes starting in [a,b)')
+  c.check(tr is not ns, 'trim returns a copy')
+  rest, want = c.snapshot(tr), c.snapshot(before)
+  del rest.notes[:]
+  del want.notes[:]
+  want.total_time = rest.total_time
+  c.check(c.msg_eq(rest, want), 'trim leaves everything but the notes alone')
+  c.check(c.msg_eq(ns, before), 'input unchanged')
+  c.cover('empty range (b < a)', b < a)
+  c.cover('negative start', a < 0)
 
 
 HARNESSES = {
     'h1_partition': h1_partition,
     'h1e_errors': h1e_errors,
     'h2_state': h2_state,
+    'h2_mixed': h2_mixed,
     'h3_pedals': h3_pedals,
     'h4_stateless': h4_stateless,
     'h5_list': h5_list,
@@ -504,6 +792,7 @@ HARNESSES = {
     'h5_time_changes': h5_time_changes,
     'h5_silence': h5_silence,
     'h6_trim_extract': h6_trim_extract,
+    'h6_trim_full': h6_trim_full,
 }
 
 
@@ -539,6 +828,47 @@ def jobs(tier):
   add('h5_silence', N=2)
   add('h5_silence', N=3)
   add('h6_trim_extract', N=2)
+  # --- keyword arguments, defaults, wrappers end to end, wider inputs
+  add('h1_partition', N=2, S=3, attrs=True)
+  add('h1_partition', N=2, S=3, neg=True)
+  add('h2_state', kind='tempo', K=2, S=3, neg=True)
+  add('h2_state', kind='chord', K=2, S=3, neg=True)
+  for kind in _KINDS:
+    add('h2_state', kind=kind, K=2, S=2, via='public')
+  # adjacent kinds in the extractor's order: timesig, key, tempo, chord
+  add('h2_mixed', kinds=['timesig', 'key', 'tempo'], S=3)
+  add('h2_mixed', kinds=['tempo', 'chord'], S=3)
+  add('h2_mixed', kinds=['chord'], S=3, beat=True)
+  add('h2_mixed', kinds=['timesig', 'chord'], S=2, via='public', neg=True)
+  add('h3_pedals', P=2, S=2, preserve=[1, 64])
+  add('h3_pedals', P=1, S=3, preserve=[])
+  add('h3_pedals', P=2, S=2, via='public', INS=[1, 15])
+  add('h3_pedals', P=2, S=2, via='public', preserve=[66, 7])
+  # a later event overriding a carried one needs two events and two pieces
+  add('h3_pedals', P=2, S=3, preserve=[64])
+  add('h3_pedals', P=1, S=3, neg=True)
+  add('h4_stateless', K=1, S=3, neg=True)
+  add('h5_list', N=2, M=2, skip='default')
+  add('h5_hop', N=2, skip='default', max_hops=4)
+  add('h5_time_changes', N=2, TS=1, TP=1, skip='default')
+  add('h5_silence', N=2, gap='default')
+  for skip in (False, True):
+    add('h5_list', N=2, M=2, skip=skip)
+    add('h5_hop', N=2, skip=skip, max_hops=4)
+    add('h5_time_changes', N=2, TS=1, TP=1, skip=skip)
+    # no notes at all: the splitters still cut [0, total_time)
+    add('h5_list', N=0, M=2, skip=skip)
+    add('h5_hop', N=0, skip=skip, max_hops=3)
+    add('h5_time_changes', N=0, TS=1, TP=1, skip=skip)
+    # the real extractor behind the wrappers: the returned list of pieces
+    add('h5_list', N=2, M=1, skip=skip, real=True)
+    add('h5_hop', N=1, skip=skip, max_hops=3, real=True)
+    add('h5_time_changes', N=1, TS=1, TP=1, skip=skip, real=True)
+  add('h5_hop', N=1, skip=True, max_hops=3, int_hop=True)
+  add('h5_silence', N=0)
+  add('h5_silence', N=2, real=True)
+  add('h6_trim_extract', N=2, neg=True)
+  add('h6_trim_full', N=2)
   if deep:
     add('h1_partition', budget=1500, N=2, S=4)
     add('h1_partition', budget=2400, required=False, N=3, S=4)
@@ -555,4 +885,17 @@ def jobs(tier):
       add('h5_time_changes', budget=900, N=1, TS=1, TP=2, skip=skip)
     add('h5_silence', budget=900, N=3)
     add('h6_trim_extract', budget=900, N=3)
+    add('h1_partition', budget=900, N=3, S=3, attrs=True)
+    add('h1_partition', budget=900, N=3, S=3, neg=True)
+    add('h2_mixed', budget=900, kinds=list(_KINDS), S=3)
+    add('h2_mixed', budget=900, kinds=['tempo', 'chord'], S=3, beat=True)
+    add('h3_pedals', budget=1500, required=False, P=2, S=3, INS=[1, 15])
+    add('h3_pedals', budget=900, P=2, S=3, preserve=[1, 64])
+    for skip in (False, True):
+      add('h5_list', budget=900, N=2, M=2, skip=skip, real=True)
+      add('h5_hop', budget=900, N=2, skip=skip, max_hops=4, real=True)
+      add('h5_time_changes', budget=900, N=2, TS=1, TP=1, skip=skip, real=True)
+    add('h5_silence', budget=900, N=3, real=True)
+    add('h6_trim_extract', budget=900, N=3, neg=True)
+    add('h6_trim_full', budget=900, N=3)
   return J
